@@ -136,6 +136,31 @@ CLAIMED = {
         technique="symbolic execution of the real Python code with taint symbols, explorer-enumerated operation "
                   "sequences, one QF_LRA equality query per path",
         design="3.13"),
+    "C10": dict(
+        text="Real cell grid, occupancy, cell-veto / cell-bounding / excluded-cells / surplus taggers, the walker-item to "
+             "target-cell map and Mediator.get_arguments_cell_veto_event_handler run on N symbolic positions (every "
+             "cell assignment including boundaries forked by the solver), every active unit, caps 1/2/unbounded, "
+             "charge filter with symbolic charges: the three target families form a partition of the other relevant "
+             "units, the walker items map bijectively onto the non-nearby cells. Real factor-type maps on symbolic "
+             "index lists: in-states == the reference comprehension, for local, inter-object and default maps.",
+        note="Ideal reals for positions (float edge of the lookup is C16); grids 1-D 6 and 7 cells (2 layers), 2-D "
+             "4x5, N <= 3 (quick) / 4; factor lines <= 2 x <= 3 indices; the regex parser is exercised concretely "
+             "on the six shipped factor files.",
+        technique="symbolic execution of the real Python code; integer/cell decisions forked by z3 over all feasible "
+                  "values; one validity query per path",
+        design="3.10"),
+    "C11": dict(
+        text="Inductive step on the real SingleActiveCellOccupancy.update: from the occupancy built by initialize + "
+             "update on a symbolic configuration, one event (move inside the cell; the real CellBoundaryEventHandler "
+             "in every direction and sense including the periodic face; any other unit becoming active) followed by "
+             "update re-establishes the mirror predicate (every relevant non-active unit listed exactly once in the "
+             "cell of its position, active unit listed nowhere and its cell recorded, no cell above its cap); after a "
+             "boundary event the active unit is in the neighbouring cell.",
+        note="One event from initialize-produced occupancies (states reachable only after several liftings are "
+             "covered by the bounded runs when listed in the evidence); ideal reals; N <= 3 (thorough 4).",
+        technique="symbolic execution of the real Python code (occupancy + boundary handler), cell decisions forked "
+                  "by z3, one validity query per path",
+        design="3.11"),
 }
 
 NOT_APPLICABLE = {
